@@ -11,6 +11,7 @@ L7  the reader decodes as many array elements as the type says (not as the bit s
 L8  the literal entry point returns Ok only when the token stream is exhausted and no error was recorded
 L9  a parser function that consumed an opening bracket consumes the matching closing bracket on every path to Ok
 L11 the type checker compares the end of a range literal with the max of its element type (typed and untyped ranges)
+L13 as_bits of a repeat literal `[x; n]` fills a buffer of its own per repetition (none for n = 0)
 L12 every GarbleProgram carries the const sizes computed by the compilation (compile() included)
 L10 literal_arg / parse_arg / set_literal / parse_literal test or parse against the parameter type with const sizes resolved
 """
@@ -625,7 +626,7 @@ def rule_l7(ctx):
 
 
 def run(ctx):
-    return ctx.run_rules([rule_l1, rule_l1b, rule_l2, rule_l3, rule_l4, rule_l5, rule_l6, rule_l7, rule_l8, rule_l9, rule_l10, rule_l11, rule_l12])
+    return ctx.run_rules([rule_l1, rule_l1b, rule_l2, rule_l3, rule_l4, rule_l5, rule_l6, rule_l7, rule_l8, rule_l9, rule_l10, rule_l11, rule_l12, rule_l13])
 
 
 # ---- the literal parser ------------------------------------------------------------------------------
@@ -992,3 +993,29 @@ def rule_l12(ctx):
     if n < 1:
         raise AnchorMissing("L12: no construction of GarbleProgram found")
     return res
+
+def rule_l13(ctx):
+    """A repeat literal `[x; n]` encodes n copies of x - none for n = 0.  The result must be a buffer of its own, sized or filled
+    per repetition; starting from the element's own bits already contains one copy."""
+    res = RuleResult("L13", "as_bits of a repeat literal builds a buffer of its own with one copy of the element per repetition")
+    body = ctx.body(AS_BITS)
+    succ = body.pruned_succ({(SELF1, ()): "ArrayRepeat"})
+    region = set(body.reachable([0], succ=succ))
+    if len(region) == len(body.reachable([0])):
+        raise AnchorMissing("L13: cannot isolate the ArrayRepeat arm of as_bits")
+    rets = [b for b in region for st in body.blocks[b]["stmts"] if st["k"] == "assign" and st["place"]["l"] == 0 and not st["place"]["p"]]
+    if not rets:
+        raise AnchorMissing("L13: the ArrayRepeat arm assigns no result")
+    for b in rets:
+        for st in body.blocks[b]["stmts"]:
+            if st["k"] == "assign" and st["place"]["l"] == 0 and not st["place"]["p"] and st["rv"]["k"] == "use" and st["rv"]["op"]["k"] in ("copy", "move"):
+                roots = body.trace(st["rv"]["op"]["place"], through={})
+                direct = [r for (r, p) in roots if r[0] == "call" and str(r[2]) == AS_BITS]
+                if direct:
+                    res.bad(Finding("L13", AS_BITS, "repeat literal: the result starts as the element's own bits",
+                                    "the buffer that is returned is the encoding of the element itself, extended for the further repetitions: `[7; 0]` encodes 8 bits instead of none "
+                                    "(inside an enum payload the surplus bits become another value)", st["sp"]))
+                else:
+                    res.ok({"verdict": "the result is a buffer of its own (%s)" % sorted({mir.last_seg(str(r[2])) for (r, p) in roots if r[0] == "call"})})
+    return res
+
